@@ -44,8 +44,9 @@ static Reference* mkref(Cell* c, const char* name, Vec2 at, double rot, double m
     return r;
 }
 static const Tag T1 = make_tag(1, 0), T2 = make_tag(2, 0), T3 = make_tag(4, 1), T4 = make_tag(7, 3), TL = make_tag(3, 2), TABSENT = make_tag(60, 61);
-static const int NVARIANT = 6;
-static const char* variant_name(int v) { static const char* n[] = {"full_mix", "polygons_only", "paths", "labels", "references", "properties_and_repetitions"}; return n[v]; }
+static const int NVARIANT = 7;
+static const Tag TH1 = make_tag(40000, 65535), TH2 = make_tag(32768, 32767), TH3 = make_tag(65535, 32768);  // 16-bit values with the top bit set
+static const char* variant_name(int v) { static const char* n[] = {"full_mix", "polygons_only", "paths", "labels", "references", "properties_and_repetitions", "tags_above_32767"}; return n[v]; }
 struct Units { double unit, precision; };
 static const Units UNITS[] = {{1e-6, 1e-9}, {1e-3, 1e-6}, {1e-6, 5e-10}};
 static Library build_library(int variant, int ui) {
@@ -83,6 +84,16 @@ static Library build_library(int variant, int ui) {
         if (variant != 4) top->reference_array.append(mkref(leaf, NULL, Vec2{-4, 0}, 0, 1, false, 1));  // variant 4: LEAF reachable from TOPCELL only through MID
         if (variant != 5) top->reference_array.append(mkref(NULL, "ABSENT_CELL", Vec2{1, 1}, 0, 1, false, 0));
         if (variant == 5) island->reference_array.append(mkref(leaf, NULL, Vec2{0, 0}, 0, 0.5, false, 2));
+    }
+    if (variant == 6) {  // layer / datatype / texttype values that do not fit a signed 16-bit integer
+        leaf->polygon_array.append(mkpoly({{0, 0}, {3, 0.5}, {1.5, 2.25}}, TH1));
+        mid->polygon_array.append(mkpoly({{-1, -1}, {2, -1}, {2, 0}}, TH2));
+        top->polygon_array.append(mkpoly({{0, 0}, {1, 0}, {0, 1}}, T2));
+        top->flexpath_array.append(mkpath(TH3, EndType::Flush, true, Vec2{0, 0}));
+        top->label_array.append(mklabel("high", TH1, Vec2{1, 2}, 0, 1, false, Anchor::O));
+        top->label_array.append(mklabel("high2", TH3, Vec2{2, 2}, 0, 1, false, Anchor::O));
+        mid->reference_array.append(mkref(leaf, NULL, Vec2{3, 1}, 0, 1, false, 0));
+        top->reference_array.append(mkref(mid, NULL, Vec2{10, 5}, 0, 1, false, 0));
     }
     if (variant == 5) {
         Polygon* p = mkpoly({{0, 0}, {2, 0}, {2, 1}, {0, 1}}, T2);
